@@ -153,6 +153,16 @@ Proof. intros Hi [->| ->]; destruct i as [|[|[|i]]]; cbn; lia. Qed.
 (** nni.Apply on a proposal made by newNNI(t, e.Left(), e.Right(), cross) for a branch between
     two nodes of degree 3 (what NNIRearranger.Rearrange produces): it succeeds and the heap stays
     good *)
+(** x above y: the branch from y to its other neighbour points away from y *)
+Lemma flag_down h x y ym ec e2 edc ed2 : Good h -> has_slot h x y ec -> has_slot h y ym e2 ->
+  alookup ec (hedges h) = Some edc -> alookup e2 (hedges h) = Some ed2 -> hleft edc = x -> e2 <> ec ->
+  Nat.eqb (hright ed2) y = false.
+Proof.
+  intros G Hsc Hsy Ec E2 Lc Ne. apply Nat.eqb_neq. intros E0. apply Ne.
+  eapply (g_one_parent _ G y ym e2 ed2 x ec edc); [exact Hsy|apply (g_sym _ G); exact Hsc|exact E2|exact Ec|exact E0|].
+  destruct (g_ends _ G x y ec edc Hsc Ec) as [[_ X]|[X Y]]; [exact X|congruence].
+Qed.
+
 Theorem nni_apply_good h n1 n2 cross q hn1 hn2 ec edc : Good h ->
   alookup n1 (hnodes h) = Some hn1 -> alookup n2 (hnodes h) = Some hn2 ->
   In (n2, ec) (slots_of hn1) -> alookup ec (hedges h) = Some edc -> hleft edc = n1 ->
@@ -216,6 +226,7 @@ Proof.
   - apply nth_error_Some. destruct (index_of_spec _ _ _ Jx) as [X _]. congruence.
   - apply nth_error_Some. destruct (index_of_spec _ _ _ Jy) as [X _]. congruence.
   - exists h'. split; [exact Ev|]. cbn [q_n1 q_n2 q_n12 q_n21 q_n22 q_cross] in D. fold ym in D.
+    rewrite (flag_down h n1 n2 ym ec e2 edc ed2 G Hs12 Hsy Ec E2 Lc M3), orb_false_r in D.
     exact (exchange_good h h' n1 n2 n12 ym ic ix iy jx jy e1 e2 ec hn1 hn2 hxm hym ed1 ed2 edc G H1 H2 Hxm Hym Kc Ec Lc Kx Nxmy E1 Ky Nymx E2 Jx Jy D).
 Qed.
 
@@ -341,6 +352,64 @@ Proof.
 Qed.
 
 
+(** the same for Apply, since the repair of its test (e1.Right() == n1 || e2.Right() == n2) *)
+Theorem nni_apply_good_any h q hx hy hxm hym ec e1 e2 edc ed1 ed2 :
+  let x := q_n1 q in let y := q_n2 q in let xm := q_n12 q in
+  let ym := if q_cross q then q_n21 q else q_n22 q in
+  Good h ->
+  alookup x (hnodes h) = Some hx -> alookup y (hnodes h) = Some hy ->
+  alookup xm (hnodes h) = Some hxm -> alookup ym (hnodes h) = Some hym ->
+  In (y, ec) (slots_of hx) -> alookup ec (hedges h) = Some edc ->
+  In (xm, e1) (slots_of hx) -> xm <> y -> alookup e1 (hedges h) = Some ed1 ->
+  In (ym, e2) (slots_of hy) -> ym <> x -> alookup e2 (hedges h) = Some ed2 ->
+  exists h', nni_apply_heap q h = HOk h' /\ Good h'.
+Proof.
+  intros x y xm ym G Hx Hy Hxm Hym Inc Ec Inx Nxmy E1 Iny Nymx E2.
+  pose proof (g_len _ G x hx Hx) as L1. pose proof (g_len _ G y hy Hy) as L2.
+  pose proof (g_nodup _ G x hx Hx) as Nd1. pose proof (g_nodup _ G y hy Hy) as Nd2.
+  destruct (In_nth_error _ _ Inc) as [ic Kc]. destruct (nth_slots_neigh hx ic y ec L1 Kc) as [Kcn Kcb].
+  destruct (In_nth_error _ _ Inx) as [ix Kx]. destruct (nth_slots_neigh hx ix xm e1 L1 Kx) as [Kxn Kxb].
+  destruct (In_nth_error _ _ Iny) as [iy Ky]. destruct (nth_slots_neigh hy iy ym e2 L2 Ky) as [Kyn Kyb].
+  assert (Ic : index_of y (hneigh hx) = Some ic) by (apply index_of_NoDup; assumption).
+  assert (Ix : index_of xm (hneigh hx) = Some ix) by (apply index_of_NoDup; assumption).
+  assert (Iy : index_of ym (hneigh hy) = Some iy) by (apply index_of_NoDup; assumption).
+  assert (Hsc : has_slot h x y ec) by (exists hx; split; assumption).
+  assert (Hsx : has_slot h x xm e1) by (exists hx; split; assumption).
+  assert (Hsy : has_slot h y ym e2) by (exists hy; split; assumption).
+  destruct (g_sym _ G _ _ _ Hsc) as [hy' [Hy' Incy]]. rewrite Hy in Hy'. injection Hy' as <-.
+  destruct (In_nth_error _ _ Incy) as [jc Kcy].
+  destruct (g_sym _ G _ _ _ Hsx) as [hxm' [Hxm' Inxm]]. rewrite Hxm in Hxm'. injection Hxm' as <-.
+  destruct (g_sym _ G _ _ _ Hsy) as [hym' [Hym' Inym]]. rewrite Hym in Hym'. injection Hym' as <-.
+  destruct (index_of_In x (hneigh hxm) (slots_of_in_neigh _ _ _ Inxm)) as [jx Jx].
+  destruct (index_of_In y (hneigh hym) (slots_of_in_neigh _ _ _ Inym)) as [jy Jy].
+  assert (Dist : x <> y /\ x <> xm /\ x <> ym /\ y <> xm /\ y <> ym /\ xm <> ym /\ e1 <> e2 /\ e1 <> ec /\ e2 <> ec).
+  { destruct (g_ends _ G x y ec edc Hsc Ec) as [[Lc _]|[Lc _]].
+    - exact (exchange_distinct h x y xm ym ic ix iy e1 e2 ec hx hy hxm hym ed1 ed2 edc G Hx Hy Hxm Hym Kc Ec Lc Kx Nxmy E1 Ky Nymx E2).
+    - destruct (exchange_distinct h y x ym xm jc iy ix e2 e1 ec hy hx hym hxm ed2 ed1 edc G Hy Hx Hym Hxm Kcy Ec Lc Ky Nymx E2 Kx Nxmy E1)
+        as (A1 & A2 & A3 & A4 & A5 & A6 & A7 & A8 & A9). repeat split; congruence. }
+  destruct Dist as (N1 & N2 & N3 & N4 & N5 & N6 & M1 & M2 & M3).
+  destruct (nni_apply_eval h q hx hy hxm hym ix iy jx jy ic e1 e2 ec ed1 ed2 edc) as [h' [Ev D]]; fold x y xm ym; try assumption.
+  - apply nth_error_Some. congruence.
+  - apply nth_error_Some. congruence.
+  - apply nth_error_Some. destruct (index_of_spec _ _ _ Jx) as [X _]. congruence.
+  - apply nth_error_Some. destruct (index_of_spec _ _ _ Jy) as [X _]. congruence.
+  - exists h'. split; [exact Ev|]. fold x y xm ym in D. destruct (g_ends _ G x y ec edc Hsc Ec) as [[Lc _]|[Lc _]].
+    + assert (Fl2 : Nat.eqb (hright ed2) y = false).
+      { apply Nat.eqb_neq. intros E0. apply M3.
+        eapply (g_one_parent _ G y ym e2 ed2 x ec edc); [exact Hsy|apply (g_sym _ G); exact Hsc|exact E2|exact Ec|exact E0|].
+        destruct (g_ends _ G x y ec edc Hsc Ec) as [[_ X]|[X _]]; [exact X|congruence]. }
+      rewrite Fl2, orb_false_r in D.
+      exact (exchange_good h h' x y xm ym ic ix iy jx jy e1 e2 ec hx hy hxm hym ed1 ed2 edc G Hx Hy Hxm Hym Kc Ec Lc Kx Nxmy E1 Ky Nymx E2 Jx Jy D).
+    + assert (Fl1 : Nat.eqb (hright ed1) x = false).
+      { apply Nat.eqb_neq. intros E0. apply M2.
+        eapply (g_one_parent _ G x xm e1 ed1 y ec edc); [exact Hsx|exact Hsc|exact E1|exact Ec|exact E0|].
+        destruct (g_ends _ G x y ec edc Hsc Ec) as [[X _]|[_ X]]; [|exact X]. exfalso. rewrite Lc in X. exact (N1 (eq_sym X)). }
+      rewrite Fl1 in D. cbn [orb] in D.
+      apply nni_desc_sym in D; try assumption.
+      exact (exchange_good h h' y x ym xm jc iy ix jy jx e2 e1 ec hy hx hym hxm ed2 ed1 edc G Hy Hx Hym Hxm Kcy Ec Lc Ky Nymx E2 Kx Nxmy E1 Jy Jx D).
+Qed.
+
+
 Theorem nni_apply_undo_good h n1 n2 cross q hn1 hn2 ec edc : Good h ->
   alookup n1 (hnodes h) = Some hn1 -> alookup n2 (hnodes h) = Some hn2 ->
   In (n2, ec) (slots_of hn1) -> alookup ec (hedges h) = Some edc -> hleft edc = n1 ->
@@ -404,6 +473,7 @@ Proof.
   - apply nth_error_Some. destruct (index_of_spec _ _ _ Jx) as [X _]. congruence.
   - apply nth_error_Some. destruct (index_of_spec _ _ _ Jy) as [X _]. congruence.
   - cbn [q_n1 q_n2 q_n12 q_n21 q_n22 q_cross] in D. fold ym in D.
+    rewrite (flag_down h n1 n2 ym ec e2 edc ed2 G Hs12 Hsy Ec E2 Lc M3), orb_false_r in D.
     pose proof (exchange_good h h' n1 n2 n12 ym ic ix iy jx jy e1 e2 ec hn1 hn2 hxm hym ed1 ed2 edc G H1 H2 Hxm Hym Kc Ec Lc Kx Nxmy E1 Ky Nymx E2 Jx Jy D) as G'.
     (* the state Apply leaves *)
     assert (Hl2 : hleft ed2 = n2).
